@@ -492,10 +492,11 @@ class AnnotationCollection(AbstractFeatureIntervalCollection):
             # if this subset operation is about to walk off the edge of the chunk this collection exists on,
             # don't allow this
             if self.is_chunk_relative and end > self.chromosome_location.end:
-                end = self.chromosome_location.end - 1
-            chunk_relative_end = self.lift_over_to_first_ancestor_of_type(
-                SequenceType.CHROMOSOME
-            ).parent_to_relative_pos(end)
+                end = self.chromosome_location.end
+            # end is exclusive: convert the last covered position
+            chunk_relative_end = (
+                self.lift_over_to_first_ancestor_of_type(SequenceType.CHROMOSOME).parent_to_relative_pos(end - 1) + 1
+            )
 
         seq_subset = self.chunk_relative_location.extract_sequence()[chunk_relative_start:chunk_relative_end]
 
